@@ -629,9 +629,12 @@ class TunnelCommunity(Community):
                                                                           hop.peer.public_key.get_crypt_pk())
             session_keys = self.crypto.generate_session_keys(shared_secret)
 
-        except ValueError:
-            self.remove_circuit(circuit.circuit_id, "error while verifying shared secret")
-            return
+        except ValueError as e:
+            # Malformed key material is refused like an answer that fails verification: anyone who saw the plaintext
+            # create can send such an answer, so it must not end the circuit (the genuine answer or the retry timer
+            # decides what happens to it).
+            msg = f"Answer for circuit {circuit_id} carries malformed key material"
+            raise CryptoException(msg) from e
 
         # The authenticator only covers the ephemeral half of the shared secret. The candidate list was encrypted with
         # the session keys: if it does not decrypt, the other side does not hold the keys we derived, and the answer
